@@ -416,8 +416,9 @@ class Context(object):
                                    os.path.basename(module) + '.ini')
 
         imported = None
-        # temporarily adjust the path for importing plugins
-        orig_sys_path = sys.path
+        # temporarily adjust the path for importing plugins (a copy: the
+        # directories are inserted into sys.path in place below)
+        orig_sys_path = list(sys.path)
         with contextlib.ExitStack() as stack:
             @stack.callback
             def _reset_sys_path():
